@@ -860,7 +860,7 @@ class CrystalMap:
         if isinstance(item, np.ndarray):
             array = np.empty(map_size, dtype=item.dtype)
             # Assume RGB (one value per point if 1D)
-            if item.ndim > 1 and item.shape[-1] == 3 and map_size > 3:
+            if item.ndim > 1 and item.shape[-1] == 3:
                 map_shape += (3,)
                 array = np.column_stack((array,) * 3)
         elif item in ["orientations", "rotations"]:  # Definitely RGB
@@ -903,7 +903,7 @@ class CrystalMap:
         sliced_array = reshaped_array[slices]
 
         # Reshape and slice mask with points not in data
-        if array.shape[-1] == 3 and map_size > 3:  # RGB
+        if array.ndim > 1 and array.shape[-1] == 3:  # RGB
             not_in_data = np.dstack((~self.is_in_data,) * 3)
         else:  # Scalar
             not_in_data = ~self.is_in_data
